@@ -178,6 +178,9 @@ def build_transform(t, d):
     if kind == "chain":
         a = mt.Homogeneous(L.mat(t["M"])) if abs(L.mat(t["M"])[-1, 0]) > 0 else mt.Affine(L.mat(t["M"]))
         b = mt.Affine(L.mat(t["M2"]))
+        if t.get("nested"):
+            # a chain that is itself one link of a longer chain (what composing a chain with a non-composable transform builds)
+            return mt.TransformChain([mt.TransformChain([a]), mt.TransformChain([b])]) if t["nested"] == 2 else mt.TransformChain([mt.TransformChain([a, b])])
         return mt.TransformChain([a, b])
     if kind == "withdims":
         return mt.WithDims(t["dims"])
@@ -261,6 +264,22 @@ def check_apply(o):
     e = _expect_shape(r, o["result"], tol)
     if e:
         bad.append((e, {}, None))
+    if c["t"]["kind"] == "chain":
+        # the same two steps as a chain of chains: the same shape comes out, the first time and every time after
+        for nest in (1, 2):
+            tn = build_transform(dict(c["t"], nested=nest), c["d"])
+            for rep in ("first", "second"):
+                try:
+                    en = _expect_shape(tn.apply(s), o["result"], tol)
+                except Exception as ex:
+                    from ..core import from_library
+
+                    if not from_library(ex):
+                        raise
+                    en = "raised %s: %s" % (type(ex).__name__, str(ex)[:100])
+                if en:
+                    bad.append(("a chain whose links are chains (nesting form %d), %s apply: %s" % (nest, rep, en), {}, None))
+                    break
     # structure carried over bit-identical, and not aliased to the input's arrays
     d = same(struct0, _struct_tree(r))
     if d:
